@@ -3084,6 +3084,10 @@ class _TooMany(Exception):
 
 _NONE, _UNK, _OBJ, _SCALAR = ('none',), ('unk',), ('obj',), ('scalar',)
 _PAIR = ('seq', _SCALAR, 2)
+_BIG = ('big',)            # an integer >= 2: the world size of an MPI run
+_WORLD = '__world__'       # key of a mode environment: 'serial' (default) or 'mpi'
+_RANK = ('rank',)          # a valid owner rank: an integer in [0, world size)
+_PAIR_MPI = ('tuple', (_RANK, _SCALAR))     # an (owner rank, local frame) pair of an MPI run
 
 
 def _seq(elem=None, n=None):
@@ -3098,15 +3102,58 @@ def _truth(av):
         return av[1]
     if k == 'int':
         return av[1] != 0
+    if k == 'big':
+        return True
     return None
 
 
 def _notnone(av):
-    return av[0] in ('obj', 'scalar', 'seq', 'int', 'bool', 'len', 'tuple')
+    return av[0] in ('obj', 'scalar', 'seq', 'int', 'bool', 'len', 'tuple', 'big', 'rank')
 
 
 def _av_compare(op, a, b):
     """True / False / None (unknown) for `a <op> b` over abstract values."""
+    if a == _BIG and b == _BIG:
+        return None
+    if a == _BIG and b == _RANK:
+        flip = {ast.Lt: ast.Gt, ast.LtE: ast.GtE, ast.Gt: ast.Lt, ast.GtE: ast.LtE}.get(type(op))
+        return _av_compare(flip() if flip is not None else op, b, a)
+    if a == _RANK and b == _BIG:
+        # a valid owner rank is smaller than the number of ranks
+        if isinstance(op, (ast.Lt, ast.LtE, ast.NotEq)):
+            return True
+        if isinstance(op, (ast.Gt, ast.GtE, ast.Eq)):
+            return False
+        return None
+    if _RANK in (a, b):
+        o, flipped = (b, False) if a == _RANK else (a, True)
+        if o[0] == 'int' and o[1] <= 0:
+            # rank >= 0 always; rank < 0 never (nothing else is known about one rank)
+            t = {ast.GtE: ast.LtE, ast.Lt: ast.Gt}.get(type(op)) if not flipped else {ast.LtE: ast.LtE, ast.Gt: ast.Gt}.get(type(op))
+            if t is ast.LtE and (o[1] <= 0):
+                return True           # o <= rank
+            if t is ast.Gt and (o[1] <= 0):
+                return False          # o > rank
+        return None
+    if b == _BIG and a[0] == 'int':
+        flip = {ast.Lt: ast.Gt, ast.LtE: ast.GtE, ast.Gt: ast.Lt, ast.GtE: ast.LtE}.get(type(op))
+        return _av_compare(flip() if flip is not None else op, b, a)
+    if a == _BIG and b[0] == 'int' and not isinstance(op, (ast.Is, ast.IsNot, ast.In, ast.NotIn)):
+        # a is some integer >= 2 (the number of ranks of an MPI run)
+        k = b[1]
+        if isinstance(op, ast.Gt):
+            return True if k <= 1 else None
+        if isinstance(op, ast.GtE):
+            return True if k <= 2 else None
+        if isinstance(op, ast.Lt):
+            return False if k <= 2 else None
+        if isinstance(op, ast.LtE):
+            return False if k <= 1 else None
+        if isinstance(op, ast.Eq):
+            return False if k <= 1 else None
+        if isinstance(op, ast.NotEq):
+            return True if k <= 1 else None
+        return None
     if isinstance(op, (ast.Is, ast.IsNot, ast.Eq, ast.NotEq)):
         pos = isinstance(op, (ast.Is, ast.Eq))
         if a == _NONE and b == _NONE:
@@ -3156,8 +3203,9 @@ class _Path(object):
 class _ModeEval(object):
     LIMIT = 96
 
-    def __init__(self, mod, fn):
+    def __init__(self, mod, fn, world='serial'):
         self.mod, self.fn = mod, fn
+        self.world = world
         self.tentative = 0
         self.locals = set(params(fn))
         for n in walk_local(fn):
@@ -3283,7 +3331,7 @@ class _ModeEval(object):
             i = self.ev(e.slice, p)
         if v == _NONE:
             return self.crash(e, '`%s` subscripts `%s`, which is None here' % (u(e)[:50], u(e.value)[:40]), p)
-        if v[0] in ('scalar', 'int'):
+        if v[0] in ('scalar', 'int', 'rank', 'big'):
             return self.crash(e, '`%s` subscripts `%s`, which is a plain number here' % (u(e)[:50], u(e.value)[:40]), p)
         if v[0] == 'seq':
             if i is None:
@@ -3333,7 +3381,7 @@ class _ModeEval(object):
                 a = avs[0]
                 if a[0] in ('seq', 'tuple'):
                     return ('bool', True)
-                if a[0] in ('none', 'scalar', 'int', 'bool'):
+                if a[0] in ('none', 'scalar', 'int', 'bool', 'rank', 'big'):
                     return ('bool', False)
             return _UNK
         if cn == 'len' and len(avs) == 1 and plain:
@@ -3349,9 +3397,9 @@ class _ModeEval(object):
             return _UNK
         if 'mpi' in cn.split('.')[:-1] and not e.args and not e.keywords:
             if last in ('size', 'Get_size'):
-                return ('int', 1)             # serial configuration
+                return _BIG if self.world == 'mpi' else ('int', 1)     # serial configuration unless stated
             if last in ('rank', 'Get_rank'):
-                return ('int', 0)
+                return _SCALAR if self.world == 'mpi' else ('int', 0)
         if cn == 'range':
             return _seq(_SCALAR, None)
         if cn == 'enumerate' and len(avs) == 1 and plain:
@@ -3572,8 +3620,9 @@ def _run_modes(ck, rule, mod, q, fn, modes, expectations):
     for desc, env in modes:
         full = {a: _UNK for a in params(fn)}
         full.update(env)
+        world = full.pop(_WORLD, 'serial')
         try:
-            paths = _ModeEval(mod, fn).run(full)
+            paths = _ModeEval(mod, fn, world).run(full)
         except _TooMany:
             ck.missing(rule, '%s, %s: too many paths' % (q, desc))
             continue
@@ -3688,11 +3737,29 @@ def d8_modes(ck, R):
             sweeps = [c for c in calls_in(fk) if _last(call_name(c)) == SWEEPS]
 
             def expect_k(desc):
-                out = [(c, 'always', 'the serial input normalisation `%s(...)`' % INPUTS, 'a serial run (mpi.size() == 1) normalises its start state through %s' % INPUTS) for c in ic]
-                out += [(c, 'never', 'the MPI input normalisation `%s_mpi(...)`' % INPUTS, 'a serial run (mpi.size() == 1) must not take the MPI path') for c in mpis]
+                if desc.startswith('MPI run'):
+                    # several ranks: the start state is normalised by the MPI variant (centre indices become
+                    # (owner rank, local frame) pairs), never by the serial one (rank-local plain indices would
+                    # make every rank refine its own clustering)
+                    out = [(c, 'never', 'the serial input normalisation `%s(...)`' % INPUTS,
+                            'a run on several ranks (mpi.size() > 1) must not normalise its start state through the serial %s: '
+                            'the centre indices stay rank-local frame numbers, every rank then sweeps its own clustering' % INPUTS) for c in ic]
+                    out += [(c, 'always', 'the MPI input normalisation `%s_mpi(...)`' % INPUTS,
+                             'a run on several ranks (mpi.size() > 1) converts the centre indices to (owner rank, frame) pairs through %s_mpi' % INPUTS) for c in mpis]
+                else:
+                    out = [(c, 'always', 'the serial input normalisation `%s(...)`' % INPUTS, 'a serial run (mpi.size() == 1) normalises its start state through %s' % INPUTS) for c in ic]
+                    out += [(c, 'never', 'the MPI input normalisation `%s_mpi(...)`' % INPUTS, 'a serial run (mpi.size() == 1) must not take the MPI path') for c in mpis]
                 out += [(c, 'always', 'the sweeps `%s(...)`' % SWEEPS, 'the sweeps are the result of kmedoids()') for c in sweeps]
                 return out
-            _run_modes(ck, rule, mod, 'kmedoids', fk, start_modes(role), expect_k)
+            kmodes = start_modes(role)
+            if mpis:
+                m = role
+                kmodes += [
+                    ('MPI run (mpi.size() > 1), warm start, centres as (trajectory, frame) + X_lengths',
+                     {m[CCI]: k_pair, m[NC]: _NONE, m[A]: _OBJ, m[D]: _OBJ, m[XL]: _OBJ, _WORLD: 'mpi'}),
+                    ('MPI run (mpi.size() > 1), warm start, plain centre indices + X_lengths',
+                     {m[CCI]: k_flat, m[NC]: _NONE, m[A]: _OBJ, m[D]: _OBJ, m[XL]: _OBJ, _WORLD: 'mpi'})]
+            _run_modes(ck, rule, mod, 'kmedoids', fk, kmodes, expect_k)
         else:
             ck.missing(rule, 'roles of the parameters of kmedoids() (through its call of %s)' % INPUTS)
     else:
@@ -3727,6 +3794,18 @@ def d8_modes(ck, R):
                            'here self.%s is True: both stages run their MPI variant and the centre indices come back as '
                            '(rank, frame) pairs' % (mm, mm))
                     break
+            if mm:
+                # ... and the MPI algorithm on several ranks
+                lives = _run_modes(ck, rule, mh, 'KHybrid.__init__', init, [
+                    ('MPI run (mpi.size() > 1), KHybrid(metric, n_clusters=k)', {mm: _NONE, nc: _OBJ, cr: _NONE, _WORLD: 'mpi'})], lambda d: [])
+                for desc, live in lives.items():
+                    if {p.attrs.get(mm) for p in live} == {('bool', False)}:
+                        st = [s for s in walk_local(init) if isinstance(s, ast.Assign) and any(
+                            isinstance(t, ast.Attribute) and t.attr == mm for t in s.targets)]
+                        ck.bad(rule, mh, st[0] if st else init, 'KHybrid.__init__', 'self.%s in a run on several ranks' % mm,
+                               'with %s=None in a run on several ranks (mpi.size() > 1) the estimator must select the MPI '
+                               'algorithm; here self.%s is False: every rank clusters its own stripe of the data as if it '
+                               'were the whole data set' % (mm, mm))
 
     # ---- the PAM update: explicit proposals vs random draw; plain indices vs (owner, frame) pairs
     if R is None:
@@ -3738,10 +3817,12 @@ def d8_modes(ck, R):
     if P is None:
         ck.missing(rule, 'parameter of %s that carries the explicit proposals' % PAM)
         return
+    # (owner, frame) pairs belong to a run on several ranks; the owner of a valid pair is one of them
+    k_own = _seq(_PAIR_MPI, 'k')
     modes = [('serial, random proposals', dict(common, **{R.pMI: k_flat, P: _NONE})),
              ('serial, explicit proposals', dict(common, **{R.pMI: k_flat, P: k_flat})),
-             ('(owner, frame) indices, random proposals', dict(common, **{R.pMI: k_pair, P: _NONE})),
-             ('(owner, frame) indices, explicit proposals', dict(common, **{R.pMI: k_pair, P: k_pair}))]
+             ('(owner, frame) indices, random proposals', dict(common, **{R.pMI: k_own, P: _NONE, _WORLD: 'mpi'})),
+             ('(owner, frame) indices, explicit proposals', dict(common, **{R.pMI: k_own, P: k_own, _WORLD: 'mpi'}))]
     fnp = mod.func(PROPOSER)
     pcalls = [c for c in calls_in(fn) if _last(call_name(c)) == PROPOSER]
     dfr = [c for c in calls_in(fn) if _last(call_name(c)) == 'distribute_frame']
